@@ -28,6 +28,7 @@ func init() {
 }
 
 func runC04(c *core.Ctx) {
+	c04RefusalsHaveAProofReason(c)
 	const pkg = "data/trie"
 	var fns []*ssa.Function
 	if f := anchorM(c, pkg, "patriciaMerkleTrie", "VerifyProof"); f != nil {
@@ -342,4 +343,71 @@ func constInt64(k *types.Const) (int64, bool) {
 	var n int64
 	_, err := fmt.Sscan(v.ExactString(), &n)
 	return n, err == nil
+}
+
+// c04RefusalsHaveAProofReason: a proof produced for a present key must verify, so VerifyProof may
+// answer "no" (false without an error) only for a reason that a genuine proof never gives: an
+// entry that is nil or empty, an entry whose hash is not the expected one, or the end of the proof.
+// A refusal decided by anything else - e.g. a relation between the number of entries and the
+// length of the key, which fails for keys stored under a branch's terminator slot - rejects
+// genuine proofs.
+func c04RefusalsHaveAProofReason(c *core.Ctx) {
+	fn := anchorM(c, "data/trie", "patriciaMerkleTrie", "VerifyProof")
+	if fn == nil || len(fn.Params) < 3 {
+		return
+	}
+	proof := ssa.Value(fn.Params[2])
+	n := 0
+	for _, r := range core.Returns(fn) {
+		b, isC := core.ConstBool(core.RetOperand(r, 0))
+		if !isC || b || !core.NilReturn(r, nil) {
+			continue
+		}
+		n++
+		conds := core.CondsAt(r.Block())
+		reason := ""
+		if len(conds) > 0 {
+			cd := conds[0]
+			switch v := cd.V.(type) {
+			case *ssa.Extract: // range loop: `ok` of next is false
+				if _, isNext := v.Tuple.(*ssa.Next); isNext && v.Index == 0 && !cd.Taken {
+					reason = "end of the proof"
+				}
+			case *ssa.Call:
+				if core.CallDesc(&v.Call).Is("bytes", "", "Equal") && !cd.Taken {
+					reason = "hash mismatch"
+				}
+			case *ssa.BinOp:
+				isEntry := func(x ssa.Value) bool {
+					for y := range core.BackwardReachPure(x) {
+						if y == proof {
+							return true
+						}
+					}
+					return false
+				}
+				lenOfProofPart := func(x ssa.Value) bool {
+					call, ok := x.(*ssa.Call)
+					if !ok {
+						return false
+					}
+					bi, isB := call.Call.Value.(*ssa.Builtin)
+					return isB && bi.Name() == "len" && isEntry(call.Call.Args[0])
+				}
+				zero := func(x ssa.Value) bool { k, ok := core.ConstInt(x); return ok && k == 0 }
+				switch {
+				case (core.IsNilConst(v.Y) && isEntry(v.X) || core.IsNilConst(v.X) && isEntry(v.Y)) && (v.Op == token.EQL) == cd.Taken:
+					reason = "nil entry"
+				case lenOfProofPart(v.X) && zero(v.Y) && ((v.Op == token.EQL && cd.Taken) || (v.Op == token.NEQ && !cd.Taken) || (v.Op == token.GTR && !cd.Taken) || (v.Op == token.LEQ && cd.Taken)):
+					reason = "empty entry / empty proof"
+				case v.Op == token.LSS && !cd.Taken && lenOfProofPart(v.Y): // index loop exhausted: !(i < len(proof))
+					reason = "end of the proof"
+				}
+			}
+		}
+		c.Check(reason != "", "C04/refusals-have-a-proof-reason", fmt.Sprintf("patriciaMerkleTrie.VerifyProof/refusal#%d", n), r.Pos(),
+			"refused because: "+reason,
+			"VerifyProof answers false on a condition that is not a nil/empty entry, a hash mismatch or the end of the proof: a relation that genuine proofs need not satisfy (e.g. number of entries vs key length) makes proofs of present keys fail")
+	}
+	c.Floor("C04/refusals-have-a-proof-reason", 3)
 }
